@@ -53,6 +53,7 @@ type FuncVer struct {
 	nopanic    bool
 	frameSeq   int
 	loopInfos  map[*ssa.Function]*loopAnalysis
+	loopEntry  *State
 	returns    int
 	panics     int
 	prop       string
@@ -96,12 +97,30 @@ func (fv *FuncVer) addQuery(st *State, kind, anchor string, pos token.Pos, goal 
 	}
 	goal = fv.skolemize(goal)
 	// one query per top-level conjunct: smaller goals for the solvers
-	parts := []*Term{goal}
-	if goal.Op == "and" && len(goal.Args) <= 24 {
-		parts = goal.Args
+	// (also through the guards of implications: the guard moves to the assumptions)
+	type part struct {
+		hyps []*Term
+		g    *Term
 	}
-	for _, g := range parts {
-		q := &Query{Assumptions: append([]*Term(nil), st.pc...), Goal: g, Trace: append([]string(nil), st.trace...)}
+	var parts []part
+	var split func(hyps []*Term, g *Term, depth int)
+	split = func(hyps []*Term, g *Term, depth int) {
+		switch {
+		case g.Op == "and" && len(g.Args) <= 24 && depth < 6 && len(parts) < 48:
+			for _, a := range g.Args {
+				split(hyps, a, depth+1)
+			}
+		case g.Op == "=>" && len(g.Args) == 2 && depth < 6:
+			split(append(append([]*Term(nil), hyps...), g.Args[0]), g.Args[1], depth+1)
+		default:
+			parts = append(parts, part{hyps, g})
+		}
+	}
+	split(nil, goal, 0)
+	for _, p := range parts {
+		as := append([]*Term(nil), st.pc...)
+		as = append(as, p.hyps...)
+		q := &Query{Assumptions: as, Goal: p.g, Trace: append([]string(nil), st.trace...)}
 		ob.Queries = append(ob.Queries, q)
 	}
 }
@@ -264,7 +283,10 @@ func (fv *FuncVer) jump(st *State, b *ssa.BasicBlock) bool {
 			return true
 		}
 		// back edge: invariant must be preserved
+		fv.loopEntry = al.entry
 		fv.checkInvariants(st, al.spec, al.key, "preserve", f)
+		fv.loopEntry = nil
+		fv.loopFrame(st, f, al.key, "preserve", al.hks)
 		return false
 	}
 	spec, key := fv.loopSpec(f.fn, li)
@@ -272,10 +294,28 @@ func (fv *FuncVer) jump(st *State, b *ssa.BasicBlock) bool {
 		st.loops = append(st.loops, activeLoop{frame: f.id, header: b, iters: 1, spec: spec, key: key})
 		return true
 	}
+	var entry *State
+	if spec != nil && spec.usesLoopEntry() {
+		entry = st.clone()
+	}
+	fv.loopEntry = entry
 	fv.checkInvariants(st, spec, key, "entry", f)
-	fv.havocLoop(st, f, li)
+	ms, blocks := fv.loopMods(st, f, li)
+	hks := ms.heapKeys()
+	if len(st.frames) != 1 {
+		hks = nil // loops of inlined callees: the frame is checked where the callee returns
+	}
+	fv.loopFrame(st, f, key, "entry", hks)
+	fv.havocLoop(st, f, li, ms, blocks)
+	fv.loopFrame(st, f, key, "assume", hks)
+	fv.assumeRangeBounds(st, f, li)
 	fv.assumeInvariants(st, spec, f)
-	st.loops = append(st.loops, activeLoop{frame: f.id, header: b, spec: spec, key: key})
+	fv.loopEntry = nil
+	if spec != nil && len(st.frames) == 1 {
+		// vacuity guard: the invariants (with everything assumed before) admit a state at the loop head
+		fv.addCover(st, "loop:"+key, "the loop head is reachable under the invariants")
+	}
+	st.loops = append(st.loops, activeLoop{frame: f.id, header: b, spec: spec, key: key, entry: entry, hks: hks})
 	return true
 }
 
@@ -679,7 +719,8 @@ func (fv *FuncVer) goEqual(st *State, a, b Val, t types.Type) *Term {
 		if resolve(x).Op == c.SSlice.DT.Ctor && resolve(resolve(x).Args[0]).IsLit {
 			return Eq(Field(y, 0), IntLit(0))
 		}
-		return Eq(Field(x, 0), Field(y, 0))
+		// reached from contracts only (Go cannot compare two non-nil slices): same slice header
+		return Eq(x, y)
 	case *types.Array:
 		if x.Sort.Elem != nil && u.Len() <= 64 {
 			var cs []*Term
